@@ -25,16 +25,43 @@ def fGet : Nat := 4
 def fLoop : Nat := 5
 def fRunnerStop : Nat := 6
 def fRequestShutdown : Nat := 7
-def fMainStopper : Nat := 8
-def fMainPublisher : Nat := 9
-def fMainAny : Nat := 10
-def fMainLoop : Nat := 11
-def fMainSleep : Nat := 12
-def fMainRecvN : Nat := 13
-def fMainRecvT : Nat := 14
-def fMainShutdown : Nat := 15
-def fMainIdle : Nat := 16
-def fMainReader : Nat := 17
+def fHookPrepare : Nat := 8
+def fHookIteration : Nat := 9
+def fHookFinalize : Nat := 10
+def fHookSettings : Nat := 11
+def fHookPublish : Nat := 12
+def fMainStopper : Nat := 13
+def fMainPublisher : Nat := 14
+def fMainAny : Nat := 15
+def fMainLoop : Nat := 16
+def fMainSleep : Nat := 17
+def fMainRecvN : Nat := 18
+def fMainRecvT : Nat := 19
+def fMainShutdown : Nat := 20
+def fMainIdle : Nat := 21
+def fMainReader : Nat := 22
+def fMainAny2 : Nat := 23
+def fMainPublisher2 : Nat := 24
+def fMainRecv2 : Nat := 25
+
+/-! ### user hooks of the loop task (functions 8–12, called by the generated `QMI_LoopTask.run`) -/
+
+/-- a hook that does not wait -/
+def hookPlain (pre : List Instr) : Func := { code := pre ++ [.ret], handlers := [] }
+
+/-- a hook that may itself wait: nothing | `self.sleep(d)` | `rx.get_next_signal(None)` |
+    `try: rx.get_next_signal(t) except QMI_TimeoutException: pass` — the stop exception propagates into `run()` -/
+def hookWaiting (pre : List Instr) : Func :=
+  let p := pre.length
+  { code := pre ++ [ /- p+0 -/ .ldAny, .jf (p+4), .call fSleep, .ret,
+                     /- p+4 -/ .ldAny, .jf (p+10), .ldAny, .setTimed, /- p+8 -/ .call fGet, .ret,
+                     /- p+10 -/ .ret ],
+    handlers := [⟨p+8, p+9, p+9, some .timeout⟩] }
+
+/-- `loop_prepare`, `loop_iteration`, `loop_finalize`, `process_new_settings`, `publish_signals` -/
+def hooks (waiting : Bool) : List Func :=
+  if waiting then [hookPlain [.mark .prepare], hookWaiting [.mark .iteration], hookPlain [.mark .finalize], hookWaiting [], hookWaiting []]
+  else [hookPlain [.mark .prepare], hookPlain [.mark .iteration], hookPlain [.mark .finalize], hookPlain [], hookPlain []]
 
 /-- `proxy.stop()` as executed by the RPC worker: `QMI_TaskRunner.stop()` -/
 def mainStopper : Func := { code := [.call fRunnerStop, .halt], handlers := [] }
@@ -45,7 +72,21 @@ def mainShutdown : Func := { code := [.call fRequestShutdown, .halt], handlers :
 /-- a task thread that is not inside `task.run()` (not started yet, or already finished) -/
 def mainIdle : Func := { code := [.halt], handlers := [] }
 
-def mainPublisher : Func := { code := [.publish, .jmp 0], handlers := [] }
+def mainPublisher : Func := { code := [.publish 0, .jmp 0], handlers := [] }
+
+/-- a publisher for two receivers: each time it serves one of them -/
+def mainPublisher2 : Func := { code := [.ldAny, .jf 4, .publish 0, .jmp 0, .publish 1, .jmp 0], handlers := [] }
+
+/-- a task that waits on **several conditions in sequence**: each time `self.sleep(d)` or `get_next_signal(None | t)` on
+    receiver 0 or 1 -/
+def mainAny2 : Func :=
+  { code := [ /- 0 -/ .ldAny, .jf 4, .call fSleep, .jmp 0,
+              /- 4 -/ .ldAny, .setRecv, .ldAny, .setTimed, /- 8 -/ .call fGet, .jmp 0 ],
+    handlers := [⟨8, 9, 9, some .timeout⟩] }
+
+/-- `while True: rx[i].get_next_signal(None)` with a free choice of the receiver each time -/
+def mainRecv2 : Func :=
+  { code := [.ldAny, .setRecv, .ldConst false, .setTimed, /- 4 -/ .call fGet, .jmp 0], handlers := [⟨4, 5, 5, some .timeout⟩] }
 
 /-- `while True:` choose `self.sleep(d)` | `rx.get_next_signal(None)` | `try: rx.get_next_signal(t) except QMI_TimeoutException: pass` -/
 def mainAny : Func :=
@@ -73,16 +114,16 @@ def mainReader : Func :=
   { code := [.ldConst false, .setTimed, .call fGet, .jmp 2], handlers := [⟨2, 3, 3, some .timeout⟩] }
 
 def mains : List Func :=
-  [mainStopper, mainPublisher, mainAny, mainLoop, mainSleep, mainRecvN, mainRecvT, mainShutdown, mainIdle, mainReader]
-
-def funcs : List Func := Gen.SyncProgs.funcs ++ mains
+  [mainStopper, mainPublisher, mainAny, mainLoop, mainSleep, mainRecvN, mainRecvT, mainShutdown, mainIdle, mainReader,
+   mainAny2, mainPublisher2, mainRecv2]
 
 def th0 (fn : Nat) (isTask : Bool) : Th :=
   { fn := fn, pc := 0, stack := [], acc := false, locs := 0, exc := none, park := .no, expired := false,
-    timed := false, isTask := isTask, status := .run }
+    timed := false, isTask := isTask, rcv := 0, cl := 0, status := .run }
 
 def st0 (tstate : Nat) (ths : List Th) : St :=
-  { flag := false, wc := false, qlen := 0, lwcl := none, lsc := none, lqc := none, fin := 0, tstate := tstate, wq := [], ths := ths }
+  { flag := false, wc := 0, qlen := 0, qlen2 := 0, lwcl := none, lsc := none, lqc := none, lqc2 := none, fin := 0,
+    tstate := tstate, wq := [], ths := ths }
 
 /-- the stoppers: the first is `stop()`, every further one `_request_shutdown` -/
 def stoppers : Nat → List Th
@@ -91,15 +132,16 @@ def stoppers : Nat → List Th
 
 /-- `mkWith gen taskMain nStop publisher`: task thread 0, stoppers 1..nStop, then (optionally) the publisher -/
 def mkWith (gen : List Func) (taskMain : Nat) (nStop : Nat) (publisher : Bool) (cap : Nat := 1)
-    (tstate : Nat := Gen.SyncProgs.stRunning) (reader : Bool := false) : Sys :=
-  { funcs := gen ++ mains, cap := cap, nStop := nStop,
+    (tstate : Nat := Gen.SyncProgs.stRunning) (reader : Bool := false) (hooksWait : Bool := false)
+    (twoReceivers : Bool := false) : Sys :=
+  { funcs := gen ++ hooks hooksWait ++ mains, cap := cap, nStop := nStop,
     init := st0 tstate ([th0 taskMain true] ++ stoppers nStop
-                 ++ (if publisher then [th0 fMainPublisher false] else [])
+                 ++ (if publisher then [th0 (if twoReceivers then fMainPublisher2 else fMainPublisher) false] else [])
                  ++ (if reader then [th0 fMainReader false] else [])) }
 
 def mk (taskMain : Nat) (nStop : Nat) (publisher : Bool) (cap : Nat := 1) (tstate : Nat := Gen.SyncProgs.stRunning)
-    (reader : Bool := false) : Sys :=
-  mkWith Gen.SyncProgs.funcs taskMain nStop publisher cap tstate reader
+    (reader : Bool := false) (hooksWait : Bool := false) (twoReceivers : Bool := false) : Sys :=
+  mkWith Gen.SyncProgs.funcs taskMain nStop publisher cap tstate reader hooksWait twoReceivers
 
 /-- stop request(s) reaching a task thread that is **not** running `task.run()`: `_state = tstate` -/
 def sysEarly (tstate : Nat) (nStop : Nat) : Sys := mk fMainIdle nStop false 1 tstate
@@ -113,12 +155,12 @@ def endedFinalised (s : St) : Bool := match taskTh s with | some t => t.status =
 /-- everything C11 asks of one state of a system with a generic waiting task -/
 def goodWaiter (sys : Sys) (s : St) : Bool :=
   !lostWakeup sys s && !anyCrashed s && stopSetsFlag sys s && noParkAfterStop sys s && exitOnlyByStop s &&
-  releasedB sys endedByStop s && progress sys s
+  releasedB sys endedByStop s && progress sys s && registrationDiscipline s
 
 /-- the same for the loop task -/
 def goodLoop (sys : Sys) (s : St) : Bool :=
   !lostWakeup sys s && !anyCrashed s && stopSetsFlag sys s && noParkAfterStop sys s && loopExit s &&
-  releasedB sys endedFinalised s && progress sys s
+  releasedB sys endedFinalised s && progress sys s && registrationDiscipline s
 
 /-- every stop request of the system has returned -/
 def allStoppersDone (sys : Sys) (s : St) : Bool :=
@@ -158,6 +200,10 @@ def sysLoop2 : Sys := mk fMainLoop 2 false
 def sysShareN : Sys := mk fMainRecvN 1 false 1 Gen.SyncProgs.stRunning true
 /-- `get_next_signal(t)`, one stop request, a bystander on the same condition and a publisher -/
 def sysShareT : Sys := mk fMainRecvT 1 true 1 Gen.SyncProgs.stRunning true
+/-- a task that waits on two receivers in sequence (free choice each time), one stop request, a publisher serving both -/
+def sysRecv2 : Sys := mk fMainRecv2 1 true 1 Gen.SyncProgs.stRunning false false true
+/-- the loop task whose `loop_iteration` / `process_new_settings` / `publish_signals` may themselves wait -/
+def sysLoopW : Sys := mk fMainLoop 1 false 1 Gen.SyncProgs.stRunning false true
 /-- free mixture of the three waits, one stop request, a publisher -/
 def sysAny : Sys := mk fMainAny 1 true
 /-- free mixture, two stop requests, a publisher -/
@@ -172,7 +218,7 @@ def stopTaskLookupFirst : Func := {
     /-  6 -/ .setFlag,
     /-  7 -/ .ldLoc 0, .jf 12,
     /-  9 -/ .lock (.viaLoc 0), .notifyAll (.viaLoc 0), .unlock (.viaLoc 0),
-    /- 12 -/ .clrLoc 0, .ret ],
+    /- 12 -/ .clrCond 0, .ret ],
   handlers := [] }
 
 def sysLookupFirst : Sys :=
